@@ -54,6 +54,17 @@ def search(pid, record):
                     "expected": "a frame, Incomplete or an error"}
         last = [l for l in p.stdout.splitlines() if l.startswith("{")]
         return json.loads(last[-1]) if last else {"found": False}
+    if pid == "C06":
+        for seed in range(4):
+            p = _run(binary, ["server-search", str(seed)], timeout=300)
+            for line in p.stdout.splitlines():
+                if line.startswith("{") and json.loads(line).get("found"):
+                    w = json.loads(line)
+                    w["scenario"] = "server-search"
+                    return w
+            if p.returncode != 0:
+                return {"found": True, "scenario": "server-search", "seed": seed, "kind": "process-died", "props": "C06",
+                        "observed": "replayer server-search exited with %d: %s" % (p.returncode, p.stderr[-400:]), "expected": "no panic"}
     if pid in ("C08", "C06") and record.get("file", "").endswith("connection.rs") and str(record.get("obligation", "")).endswith("contracts_applicable"):
         p0 = _run(binary, ["frame-search"])
         for line in p0.stdout.splitlines():
@@ -110,6 +121,10 @@ def execute(w):
     if w.get("scenario") in ("store-search", "store-torn-append"):
         args = ["store-search", str(w.get("seed", "0"))] if w["scenario"] == "store-search" else ["store-torn-append"]
         p = _run(binary, args, timeout=600)
+        found = p.returncode != 0 or any(l.startswith("{") and json.loads(l).get("found") for l in p.stdout.splitlines())
+        return (not found), p.stdout.strip()[-700:]
+    if w.get("scenario") == "server-search":
+        p = _run(binary, ["server-search", str(w.get("seed", 0))], timeout=300)
         found = p.returncode != 0 or any(l.startswith("{") and json.loads(l).get("found") for l in p.stdout.splitlines())
         return (not found), p.stdout.strip()[-700:]
     if w.get("scenario") == "conn-search":
